@@ -465,7 +465,7 @@ def tlc_check(chk, name, module, cfg, workers=16, timeout=900, expect="ok", **kw
 
 
 def history_check(chk, driver, scns, module, quick, seed, nseeds_quick=600, nseeds_thorough=6000,
-                  optsets=(("nes=0",), ("nes=1",), ("nes=2",)), free_runs=200, what="history rejected by the specification",
+                  optsets=(("nes=0",), ("nes=1",), ("nes=2",), ("nes=2", "shared=1")), free_runs=200, what="history rejected by the specification",
                   stuck_is_violation=True, batch_events=5000, variant="gcc", sigfn=None, env=None):
     """Run `scns` of a driver over option sets and seeds (serialized mode; plus
     free mode in the thorough tier) and validate the histories."""
